@@ -373,13 +373,14 @@ class Ctx:
             return False
         # thorough: independent re-check of the compiled property module
         if self.tier == "thorough":
-            p = subprocess.run(
-                ["lake", "env", "leanchecker", module], cwd=LEAN, capture_output=True, text=True, timeout=3000
-            )
-            ok = p.returncode == 0
-            self.obligations.append((f"leanchecker {module}", ok, (p.stdout + p.stderr)[-300:]))
-            if not ok:
-                self.broken.append({"kind": "leanchecker", "module": module, "log": (p.stdout + p.stderr)[-2000:]})
+            for mod_ in (module, *extra_modules):
+                p = subprocess.run(
+                    ["lake", "env", "leanchecker", mod_], cwd=LEAN, capture_output=True, text=True, timeout=3000
+                )
+                ok = p.returncode == 0
+                self.obligations.append((f"leanchecker {mod_}", ok, (p.stdout + p.stderr)[-300:]))
+                if not ok:
+                    self.broken.append({"kind": "leanchecker", "module": mod_, "log": (p.stdout + p.stderr)[-2000:]})
         rc, out = lean_run_file(aud_rel)
         found = {}
         for m in re.finditer(r"'([^']+)' depends on axioms: \[([^\]]*)\]", out.replace("\n", " ")):
